@@ -16,6 +16,8 @@ def cases(tier, seed):
         for shape in shapes:
             nd = len(shape)
             axsets = [None] + [list(ax) for r in range(1, nd + 1) for ax in itertools.combinations(range(nd), r)] + ([[-1]] if nd > 1 else [])
+            if nd >= 2:
+                axsets += [[1, 0], [-1, -2]] + ([[2, 0]] if nd == 3 else [])        # axes given in a non-canonical order
             for axes in axsets:
                 for level in (None, 1, 2, 3):
                     yield dict(fn="wavelet.check", args=dict(shape=shape, wave=w, axes=axes, level=level, seed=seed, complex=(len(shape) + (level or 0)) % 2 == 0))
